@@ -264,15 +264,27 @@ class Ctx:
     def _bound(self, t: T):
         return z3.Const(self.fresh_name('q'), self.sort(t))
 
-    def forall(self, ts, fn, pat=None):
-        return self._quant(ts, fn, True, pat)
+    def forall(self, ts, fn, pat=None, subst=False):
+        return self._quant(ts, fn, True, pat, subst)
 
-    def exists(self, ts, fn, pat=None):
-        return self._quant(ts, fn, False, pat)
+    def exists(self, ts, fn, pat=None, subst=False):
+        return self._quant(ts, fn, False, pat, subst)
 
-    def _quant(self, ts, fn, univ, pat=None):
+    def _quant(self, ts, fn, univ, pat=None, subst=False):
         ts = list(ts)
         if all(t.k == 'u' and self.is_enumerated(t.name) for t in ts):
+            if subst:
+                # side-effect-free body (spec lambdas): build it once over fresh variables, then substitute every
+                # combination of enumeration constants (same formula as the expansion below, without re-walking the spec)
+                doms = [self.consts(t.name) for t in ts]
+                if any(not d for d in doms):
+                    return z3.BoolVal(univ)
+                vs = [z3.Const(self.fresh_name('qe'), self.sort(t)) for t in ts]
+                body = fn(*vs)
+                if not z3.is_expr(body):
+                    body = z3.BoolVal(bool(body))
+                bodies = [z3.substitute(body, *zip(vs, combo)) for combo in itertools.product(*doms)]
+                return z3.And(bodies) if univ else z3.Or(bodies)
             bodies = [fn(*combo) for combo in itertools.product(*[self.consts(t.name) for t in ts])]
             if not bodies:
                 return z3.BoolVal(univ)
